@@ -531,6 +531,8 @@ func (w *wbuild) invoke(m *Machine, req BuildReq, opts InvOpts, arm func(p *simr
 			cmds.TestCmd.Run(cmds.TestCmd, req.Patterns)
 		case "taint":
 			cmds.TaintCmd.Run(cmds.TaintCmd, req.Patterns)
+		case "run":
+			cmds.RunCmd.Run(cmds.RunCmd, req.Patterns)
 		}
 	})
 	w.s.WaitProc(proc)
